@@ -135,7 +135,7 @@ func truncate(s string, n int) string {
 
 // junkPayload derives a hostile payload, optionally from a valid message.
 func junkPayload(t *rapid.T, valid []byte) []byte {
-	mode := rapid.SampledFrom([]string{"null", "valid", "truncate", "empty", "wrongtypes", "array", "string", "number", "big", "bigvalid", "bytes", "nested", "dupkeys", "nullfields", "true", "trailing", "trailing", "leading"}).Draw(t, "junkmode")
+	mode := rapid.SampledFrom([]string{"null", "valid", "truncate", "empty", "wrongtypes", "array", "string", "number", "big", "bigvalid", "bytes", "nested", "dupkeys", "nullfields", "true", "trailing", "trailing", "leading", "odd-id", "odd-id"}).Draw(t, "junkmode")
 	switch mode {
 	case "null":
 		return []byte("null")
@@ -181,6 +181,16 @@ func junkPayload(t *rapid.T, valid []byte) []byte {
 			return append(append([]byte{}, valid...), valid...) // a second complete object
 		}
 		return append(append([]byte{}, valid...), suffix...)
+	case "odd-id":
+		// an otherwise valid message whose swap_id is not 32 bytes of hex
+		var x map[string]interface{}
+		if json.Unmarshal(valid, &x) != nil {
+			return valid
+		}
+		id, _ := x["swap_id"].(string)
+		x["swap_id"] = rapid.SampledFrom([]string{"", "00", "abcd", id[:len(id)/2], id[:len(id)-2], id + "00", strings.ToUpper(id), "0x" + id[2:], id[:len(id)-1] + "g"}).Draw(t, "oddId")
+		b, _ := json.Marshal(x)
+		return b
 	case "leading":
 		return append([]byte(rapid.SampledFrom([]string{"x", "\x00", "}", "[", "1 "}).Draw(t, "prefix")), valid...)
 	case "nullfields":
